@@ -154,16 +154,31 @@ class MultipartDecoder:
         )
 
     def last_newline(self) -> int:
-        try:
-            last_nl = self.buffer.rindex(b"\n")
-        except ValueError:
-            last_nl = len(self.buffer)
-        try:
-            last_cr = self.buffer.rindex(b"\r")
-        except ValueError:
-            last_cr = len(self.buffer)
+        """
+        Index from which the buffered bytes may still turn out to be the
+        beginning of a boundary line (line break, "--", boundary, optional
+        "--" or padding). Everything before that index is part data; when
+        the text after the last line break cannot become a boundary line,
+        the whole buffer is data.
+        """
+        buffer = self.buffer
+        index = max(buffer.rfind(b"\n"), buffer.rfind(b"\r"))
+        if index == -1:
+            return len(buffer)
+        rest_start = index + 1
+        if index > 0 and buffer[index - 1 : index + 1] == b"\r\n":
+            index -= 1
 
-        return min(last_nl, last_cr)
+        marker = b"--" + self.boundary
+        if len(buffer) - rest_start <= len(marker):
+            may_be_boundary = marker.startswith(bytes(buffer[rest_start:]))
+        elif buffer.startswith(marker, rest_start):
+            tail = bytes(buffer[rest_start + len(marker) :])
+            may_be_boundary = tail == b"-" or not tail.strip(b" \t\x0b\x0c")
+        else:
+            may_be_boundary = False
+
+        return index if may_be_boundary else len(buffer)
 
     def receive_data(self, data: Optional[bytes]) -> None:
         if data is None:
